@@ -691,3 +691,21 @@ func TestF31_OptionSliceRetained(t *testing.T) {
 		t.Fatalf("redefined function changed after Redefine returned: %v", res.Err())
 	}
 }
+
+// F32 (C08, C17): the function generated by Redefine returned zero values next to an error the original function
+// itself had returned.
+func TestF32_RedefinedFunctionDropsResultsNextToError(t *testing.T) {
+	boom := errors.New("boom")
+	f := am.MustFunc(am.NewFunc(func(a int) (int, error) { return a + 1, boom }))
+	rf, err := f.Redefine()
+	if err != nil {
+		t.Fatal(err)
+	}
+	res := rf.Call(am.Typed(41))
+	if res.Err() != boom {
+		t.Fatalf("error: %v", res.Err())
+	}
+	if res.Len() != 1 || res.Out(0).(int) != 42 {
+		t.Fatalf("the original returned (42, boom), the redefined function (%v, boom)", res.Out(0))
+	}
+}
